@@ -197,8 +197,11 @@ class InitSegment(DashElement):
                     f'DASH timescale {dash_timescale} and media timescale ' +
                     f'{media_timescale} are not multiples of each other'))
 
-        if self.parent.codecs and self.elt.check_not_none(
-                dash_rep.codecs, msg='Failed to find a sample description (stsd) in this init segment'):
+        has_codec: bool = self.elt.check_not_none(
+            dash_rep.codecs, msg='Failed to find a sample description (stsd) in this init segment')
+        if not has_codec:
+            return
+        if self.parent.codecs:
             self.elt.check_equal(
                 dash_rep.codecs.lower(), self.parent.codecs.lower(),
                 msg=f'Expected codec to be {self.parent.codecs} but found {dash_rep.codecs}')
